@@ -106,7 +106,8 @@ def fold(ctx, job, r):
         return
     if r.violated:
         # design-level result: a prediction, never a verdict about the code
-        ctx.note("B-model counterexample in %s (%s): design-level prediction only; the real code is judged below" % (lab, r.violated))
+        ctx.note("B-model counterexample in %s (%s): design-level prediction only%s" %
+                 (lab, r.violated, "" if job.get("prediction") else "; the real code is judged by the recorded executions"))
         ctx.bviol = getattr(ctx, "bviol", 0) + 1
         return
     if r.rc != 0:
@@ -131,16 +132,25 @@ def uncovered_actions(out):
 def wit_jobs(ctx):
     """Directed schedules (U2): one schedule per state in which a behaviour first takes a branch of interest."""
     jobs = []
-    base = {"G": "G3", "MAXPEER": "1", "KINDS": '{"d1"}', "WITLEN": "16", "TARGETS": "AllTags"}
+    base = {"G": "G3", "MAXPEER": "1", "KINDS": '{"d1"}', "WITLEN": "16", "TARGETS": "AllTags", "RENEG": "FALSE",
+            "RENEGOK": "FALSE"}
+    # (side, ver, programs, record kinds, targets, renegotiation allowed)
     if ctx.quick:
-        plan = [("client", "1.2", "ProgsWitQ", '{"d1"}')]
+        plan = [("client", "1.2", "ProgsWitQ", '{"d1"}', "AllTags", False),
+                ("client", "1.3", "ProgsKuQ", '{"ku"}', "KuTags", False),
+                ("client", "1.2", "ProgsRnQ", '{"d1","hr"}', "RnTags", True)]
     else:
-        plan = [("client", "1.2", "ProgsWit", '{"d1","d2"}'), ("client", "1.3", "ProgsWitQ", '{"d1","d2"}'),
-                ("server", "1.2", "ProgsWitQ", '{"d1","d2"}'), ("server", "1.3", "ProgsWitQ", '{"d1","d2"}')]
-    for side, ver, progs, kinds in plan:
-        s = dict(base, PROGS=progs, SHAPE=SHAPES[(side, ver)], KINDS=kinds, MAXPEER="1" if ctx.quick else "2")
-        jobs.append({"n": 100 + len(jobs), "label": "directed %s %s %s" % (side, ver, progs), "module": "MC_TLSConn",
-                     "cfg": "TLSConn_wit.cfg", "subst": s, "side": side, "ver": ver, "timeout": 3000})
+        plan = [("client", "1.2", "ProgsWit", '{"d1","d2"}', "AllTags", False),
+                ("client", "1.3", "ProgsWitQ", '{"d1","d2"}', "AllTags", False),
+                ("server", "1.2", "ProgsWitQ", '{"d1","d2"}', "AllTags", False),
+                ("server", "1.3", "ProgsWitQ", '{"d1","d2"}', "AllTags", False),
+                ("client", "1.3", "ProgsKu", '{"d1","ku","kun"}', "KuTags", False),
+                ("client", "1.2", "ProgsRn", '{"d1","hr"}', "RnTags", True)]
+    for side, ver, progs, kinds, targets, reneg in plan:
+        s = dict(base, PROGS=progs, SHAPE=SHAPES[(side, ver)], KINDS=kinds, TARGETS=targets,
+                 MAXPEER="1" if ctx.quick else "2", RENEG="TRUE" if reneg else "FALSE")
+        jobs.append({"n": 100 + len(jobs), "label": "directed %s %s %s %s" % (side, ver, progs, targets), "module": "MC_TLSConn",
+                     "cfg": "TLSConn_wit.cfg", "subst": s, "side": side, "ver": ver, "reneg": reneg, "timeout": 3000})
     return jobs
 
 
@@ -169,8 +179,9 @@ def mc_jobs(ctx):
     jobs = []
 
     def add(label, cfg, **subst):
-        s = {"G": "G3", "PROGS": "ProgsQ", "SHAPE": "ShapeClient12", "MAXPEER": "1", "KINDS": '{"d2"}', "MUT": "{}"}
-        extra = {k: subst.pop(k) for k in list(subst) if k in ("expect_violation", "coverage", "timeout")}
+        s = {"G": "G3", "PROGS": "ProgsQ", "SHAPE": "ShapeClient12", "MAXPEER": "1", "KINDS": '{"d2"}', "MUT": "{}",
+             "RENEG": "FALSE", "RENEGOK": "FALSE"}
+        extra = {k: subst.pop(k) for k in list(subst) if k in ("expect_violation", "coverage", "timeout", "prediction")}
         s.update(subst)
         if cfg == "TLSConn_live.cfg":
             s.pop("MUT")
@@ -180,6 +191,8 @@ def mc_jobs(ctx):
 
     if q:
         add("safety client12 ProgsQ", "TLSConn_mc.cfg")
+        add("safety renegotiation ProgsRnQ", "TLSConn_mc.cfg", PROGS="ProgsRnQ", RENEG="TRUE", KINDS='{"d1","hr"}')
+        add("safety KeyUpdate ProgsKuQ", "TLSConn_mc.cfg", PROGS="ProgsKuQ", SHAPE="ShapeClient13", KINDS='{"d1","ku"}')
         add("liveness G2", "TLSConn_live.cfg", G="G2", PROGS="ProgsLive2", MAXPEER="1")
     else:
         add("safety client12 ProgsQuick", "TLSConn_mc.cfg", PROGS="ProgsQuick", coverage=True, timeout=3000,
@@ -188,10 +201,24 @@ def mc_jobs(ctx):
             KINDS='{"d2","hs","ku"}', timeout=3000, coverage=True)
         add("safety server12 ProgsMut", "TLSConn_mc.cfg", PROGS="ProgsMut", SHAPE="ShapeServer12", timeout=3000)
         add("safety server13 ProgsMut", "TLSConn_mc.cfg", PROGS="ProgsMut", SHAPE="ShapeServer13", timeout=3000)
+        add("safety renegotiation ProgsRn", "TLSConn_mc.cfg", PROGS="ProgsRn", RENEG="TRUE", KINDS='{"d1","hr"}', MAXPEER="2",
+            timeout=3000, coverage=True)
+        add("safety HelloRequest refused ProgsRn", "TLSConn_mc.cfg", PROGS="ProgsRn", RENEG="FALSE", KINDS='{"d1","hr"}',
+            MAXPEER="2", timeout=3000, coverage=True)
+        add("safety KeyUpdate ProgsKu", "TLSConn_mc.cfg", PROGS="ProgsKu", SHAPE="ShapeClient13", KINDS='{"d1","ku","kun"}',
+            MAXPEER="2", timeout=3000)
         add("liveness proto", "TLSConn_live.cfg", PROGS="ProgsProto", MAXPEER="1", timeout=3000)
         add("liveness ProgsQ ku", "TLSConn_live.cfg", PROGS="ProgsQ", SHAPE="ShapeClient13", KINDS='{"d2","ku"}', timeout=3000)
+        add("liveness renegotiation ProgsRn", "TLSConn_live.cfg", PROGS="ProgsRn", RENEG="TRUE", KINDS='{"d1","hr"}', timeout=3000)
         for m in ("cs_nolock", "cn_in", "wr_vers_early"):
             add("model mutation " + m, "TLSConn_mc.cfg", PROGS="ProgsMut", MUT='{"%s"}' % m, expect_violation=True)
+        add("model mutation rn_store_early", "TLSConn_mc.cfg", PROGS="ProgsRn", RENEG="TRUE", KINDS='{"d1","hr"}', MAXPEER="2",
+            MUT='{"rn_store_early"}', expect_violation=True)
+        add("model mutation ku_nolock", "TLSConn_mc.cfg", PROGS="ProgsKu", SHAPE="ShapeClient13", KINDS='{"d1","ku","kun"}',
+            MAXPEER="2", MUT='{"ku_nolock"}', expect_violation=True)
+        # a peer that goes through with the renegotiation (no zcrypto peer does): design-level prediction only
+        add("prediction: renegotiation accepted by the peer", "TLSConn_mc.cfg", PROGS="ProgsRn", RENEG="TRUE", RENEGOK="TRUE",
+            KINDS='{"d1","hr"}', MAXPEER="2", timeout=3000, prediction=True)
     return jobs
 
 
@@ -201,7 +228,7 @@ def gen_schedules(ctx, side, ver, num, genmin, maxpeer=2):
     """U2: behaviours of the B model that run every program to its end, as controllable events."""
     r = ctx.tlc("MC_TLSConn", "TLSConn_sim.cfg",
                 subst={"G": "G3", "PROGS": "ProgsGen3", "SHAPE": SHAPES[(side, ver)], "MAXPEER": maxpeer,
-                       "KINDS": '{"d1","d2"}', "GENMIN": genmin},
+                       "KINDS": '{"d1","d2"}', "GENMIN": genmin, "RENEG": "FALSE", "RENEGOK": "FALSE"},
                 simulate="num=%d" % num, depth=400, workers=1, timeout=900,
                 label="simulate %s %s num=%d genmin=%d" % (side, ver, num, genmin))
     out, seen = [], set()
@@ -251,17 +278,42 @@ def random_schedule(rng):
             ev.append({"t": "x"})
         elif x < 0.97 and not starts:
             ev.append({"t": "pc", "m": rng.choice(["cn", "abort"])})
+        elif x < 0.985:
+            ev.append({"t": rng.choice(["ku", "kun", "hr"])})   # applies to TLS 1.3 (ku) / TLS <= 1.2 (hr) only
         elif len(ev) > 60:
             break
     return {"progs": progs, "ev": ev}
 
 
-def concretise(scheds, first_id, side, ver, mode, seed, tickets=None, rdbuf=6, nodrs=True):
+def stress_schedule(rng):
+    """Free-running schedule (every gate open): a reader, ConnectionState pollers and looping writers, and
+    a post-handshake message from the peer while they run."""
+    kind = rng.choice(["hr", "hr", "ku"])
+    progs = [["Read", "Read", "Read"]]
+    for _ in range(rng.choice([1, 2, 2])):
+        progs.append(["ConnStateLoop"])
+    for _ in range(rng.choice([1, 2, 2])):
+        progs.append(["WriteLoop"])
+    if rng.random() < 0.3:
+        progs.append(["Write", "CloseWrite"] if kind == "ku" else ["Handshake", "Write"])
+    ev = [{"t": "s", "g": 1}, {"t": "ps", "k": "d1"}]
+    order = list(range(2, len(progs) + 1))
+    rng.shuffle(order)
+    ev += [{"t": "s", "g": g} for g in order]
+    ev += [{"t": kind}]
+    if rng.random() < 0.5:
+        ev += [{"t": "ps", "k": "d1"}]
+    if kind == "ku" and rng.random() < 0.5:
+        ev += [{"t": "kun"}, {"t": "ku"}]
+    return {"progs": progs, "ev": ev}, kind
+
+
+def concretise(scheds, first_id, side, ver, mode, seed, tickets=None, rdbuf=6, nodrs=True, reneg=False):
     res = []
     for i, s in enumerate(scheds):
         d = {"id": first_id + i, "progs": s["progs"], "ev": s["ev"], "ver": ver, "side": side, "mode": mode,
              "seed": seed * 1000 + i, "nodrs": nodrs, "tickets": (ver == "1.3") if tickets is None else tickets,
-             "rdbuf": rdbuf}
+             "rdbuf": rdbuf, "reneg": reneg}
         res.append(d)
     return res
 
@@ -380,9 +432,11 @@ def stream_sig(rej, sched):
         elif e.get("ev") == "ce":
             opened.pop((e["g"], e["k"]), None)
     if last.get("ev") == "final" and opened:
-        return {"kind": "stuck", "calls": sorted(set(opened.values())), "side": sched.get("side"), "ver": sched.get("ver")}
+        return {"kind": "stuck", "calls": sorted(set(opened.values())), "side": sched.get("side"), "ver": sched.get("ver"),
+                "mode": sched.get("mode")}
     at = last.get("ev")
-    return {"kind": "stream", "at": at, "call": last.get("call", ""), "side": sched.get("side"), "ver": sched.get("ver")}
+    return {"kind": "stream", "at": at, "call": last.get("call", ""), "side": sched.get("side"), "ver": sched.get("ver"),
+            "mode": sched.get("mode")}
 
 
 def coverage_of(events):
@@ -459,6 +513,8 @@ def judge(ctx, binary, binary_race, batches):
             cands.append({"sig": sig, "what": "data race reported by the Go race detector: %s <-> %s (schedule %s, %s)" %
                           (sig["a"], sig["b"], sid, tag), "case": {"schedule": s, "kind": "race", "race_build": True,
                                                                      "report": text[:6000]}})
+    # deterministic (strict) schedules first: they reproduce reliably
+    cands.sort(key=lambda c: 0 if c["case"]["schedule"].get("mode") == "strict" else 1)
     if cands:
         ctx.candidates(binary, cands, reproduce=lambda path, body: reproduce(ctx, binary, binary_race, body))
     return acc, len(rejects)
@@ -488,7 +544,7 @@ def reproduce(ctx, binary, binary_race, body, tries=4):
             continue
         ev = read_ndjson(out)
         _, rej = ctx.trace_validate("Trace_TLSConn", "TLSConn_trace.cfg", TRACE, ev, max_rejects=1)
-        if rej and stream_sig(rej[0], s)["kind"] == kind:
+        if rej and stream_sig(rej[0], s)["kind"] == kind:   # (same kind of rejection: stream / stuck)
             return True
     return False
 
@@ -498,8 +554,10 @@ def reproduce(ctx, binary, binary_race, body, tries=4):
 def run(ctx):
     quick = ctx.quick
     ctx._prepare_spec()
-    bg = BgTLC(ctx, mc_jobs(ctx))
-    bg.start()
+    mcj = mc_jobs(ctx)
+    bgs = [BgTLC(ctx, mcj[0::2]), BgTLC(ctx, mcj[1::2])]
+    for b in bgs:
+        b.start()
     bgw = BgTLC(ctx, wit_jobs(ctx))
     bgw.start()
     try:
@@ -534,7 +592,7 @@ def run(ctx):
         for j, r in bgw.results:
             fold_counts(ctx, j, r)
             ws = wit_schedules(ctx, j, r, 10 if quick else 40, rngw)
-            c = concretise(ws, nid, j["side"], j["ver"], "strict", ctx.seed)
+            c = concretise(ws, nid, j["side"], j["ver"], "strict", ctx.seed, reneg=j.get("reneg", False))
             nid += len(c)
             ndir += len(c)
             strict += c
@@ -554,7 +612,14 @@ def run(ctx):
             side = rng.choice(["client", "client", "server"])
             ver = rng.choice(["1.2", "1.3", "1.3", "1.0"] if not quick else ["1.2", "1.3"])
             rnd += concretise([random_schedule(rng)], nid, side, ver, rng.choice(["loose", "loose", "strict"]), ctx.seed + i,
-                              rdbuf=rng.choice([6, 6, 12, 30]), nodrs=rng.random() < 0.5)
+                              rdbuf=rng.choice([6, 6, 12, 30]), nodrs=rng.random() < 0.5,
+                              reneg=(side == "client" and ver != "1.3" and rng.random() < 0.5))
+            nid += 1
+        stress = []
+        for i in range(30 if quick else 300):
+            sc, kind = stress_schedule(rng)
+            stress += concretise([sc], nid, "client", "1.3" if kind == "ku" else "1.2", "free", ctx.seed + i,
+                                 reneg=(kind == "hr"))
             nid += 1
         ctx.add_samples([{"schedule": strict[len(strict) // 3]}], n=1)
 
@@ -570,11 +635,12 @@ def run(ctx):
         go("strict", strict, False)
         if quick:
             go("strict-race", strict[::2], True)
-            go("loose-race", loose[1::3] + rnd, True)
+            go("loose-race", loose[1::3] + rnd + stress, True)
+            go("stress", stress, False)
         else:
             go("strict-race", [s for i, s in enumerate(strict) if i % 2 == 0 or s["id"] in directed_ids], True)
-            go("loose-race", loose[::2] + rnd, True)
-            go("loose", loose[1::2] + rnd, False)
+            go("loose-race", loose[::2] + rnd + stress, True)
+            go("loose", loose[1::2] + rnd + stress, False)
         acc, nrej = judge(ctx, binary, binary_race, batches)
         if not quick and nrej == 0:
             # observation (left open by the statement): did every Write arrive as one contiguous piece?
@@ -612,12 +678,15 @@ def run(ctx):
             selftest(ctx, allev)
     finally:
         bgw.join()
-        bg.join()
-    if bg.error:
-        raise Machinery("background TLC: %r" % (bg.error,))
-    for j, r in bg.results:
+        for b in bgs:
+            b.join()
+    for b in bgs:
+        if b.error:
+            raise Machinery("background TLC: %r" % (b.error,))
+    done = sorted([jr for b in bgs for jr in b.results], key=lambda jr: jr[0]["n"])
+    for j, r in done:
         fold(ctx, j, r)
-    if len(bg.results) != len(bg.jobs):
+    if len(done) != len(mcj):
         raise Machinery("background TLC did not run every job")
     if getattr(ctx, "never_taken", None):
         raise Machinery("vacuous model check: actions taken in no covered configuration: %s" % ", ".join(sorted(ctx.never_taken)))
